@@ -11,6 +11,7 @@ policy in quick) through the real CLI and compares: the requests the fake server
 whose expected texts come from SshRating evaluated by TLC on the reported sizes.
 """
 import itertools
+import json
 import random
 
 from harness import common, runner, peers, report, tlc
@@ -140,6 +141,7 @@ def run(tier):
             ck.violation('trace-rejected model_pc=%s' % (info or {}).get('model_pc'), 'TraceAudit rejects the run of a cooperative GEX server: %s' % (
                 {k: v for k, v in (info or {}).items() if k != 'events'}), {'srv': srv, 'info': info})
     granular_leg(ck, rnd, tier)
+    faults_leg(ck, tier)
     variants_leg(ck, servers, rnd, tier)
     sequence_leg(ck)
     for k in pick[:3]:
@@ -151,6 +153,93 @@ def run(tier):
     ck.cov['exhaustive'] = (tier == 'thorough')
     ck.assumptions += ['the fake server hands out g = 1 and a modulus of exactly the selected bit length (the tool verifies neither)']
     return ck.finish()
+
+
+def faults_leg(ck, tier):
+    """Group-exchange probes that go wrong at every position of the probe sequence: the k-th SSH_MSG_KEX_DH_GEX_GROUP of the audit is
+    cut short inside a correctly framed packet (then the connection ends), replaced by another message type, withheld, or the
+    connection is closed instead.  The size the report shows is still a size the probe loop could have recorded: the run is
+    validated against TraceAudit (whose exit step binds the sizes shown to SshAudit!reported under the faults the trace shows), and
+    whatever is shown is the bit length of a group the server really handed out, whole, for that algorithm."""
+    from harness import fakenet, wire
+    dh_tables = rating.tables()['dheat']
+    arch = [dict(moduli=[3072], style='openssh', openssh=True, gex=[GEX256]), dict(moduli=[4096], style='openssh', openssh=True, gex=[GEX1, GEX256]),
+            dict(moduli=[4096], style='strict', openssh=False, gex=[GEX256]), dict(moduli=[1024, 2048], style='roundup', openssh=False, gex=[GEX1, GEX256]),
+            dict(moduli=[2048], style='openssh', openssh=True, gex=[GEX256])]
+
+    def truncated(d):
+        # a correctly framed type-31 packet whose payload announces a 257-byte modulus and carries 100 bytes of it
+        return [wire.frame(bytes([31]) + wire.u32(257) + b'\x00' + b'\xc3' * 99), fakenet.EOF]
+    kinds = {'truncated-group': truncated, 'closed': lambda d: [fakenet.EOF], 'withheld': lambda d: [fakenet.STALL],
+             'other-message': lambda d: [wire.frame(bytes([3]) + wire.u32(0)), fakenet.EOF]}
+    scs, meta = [], []
+    for ai, a in enumerate(arch):
+        for kname, fn in sorted(kinds.items()):
+            for k in range(1, 13 if tier == 'quick' else 19):
+                for view in (('-n',) if (k + ai) % 3 else ('-n', '-j')):
+                    cfg = server_cfg(a)
+                    state = {'seen': 0}
+
+                    def mutate(n, kind, idx, data, k=k, fn=fn, state=state):
+                        if kind == 'gexgroup':
+                            state['seen'] += 1
+                            if state['seen'] == k:
+                                return fn(data)
+                        return [data]
+                    cfg['mutate'] = mutate
+                    scs.append({'argv': [view, '--skip-rate-test', '-t', '3', audit.HOST], 'servers': {(audit.HOST, 22): cfg}})
+                    meta.append((a, kname, k, view))
+    results = runner.run_many(scs)
+    items, imeta = [], []
+    for (a, kname, k, view), sc, r in zip(meta, scs, results):
+        ck.evaluated()
+        replay = {'server': a, 'fault': kname, 'at_group_message': k, 'argv': sc['argv'], 'exit': r.get('exit'), 'stdout': (r.get('stdout') or '')[-2500:]}
+        if r.get('harness_error'):
+            raise common.Machinery('run failed: %r' % r.get('harness_error'))
+        if r.get('hang'):
+            ck.violation('gex-fault-run-did-not-complete fault=%s' % kname, 'the audit never ended', replay)
+            continue
+        if r['exit'] not in (0, 2, 3):
+            exc, loc = rating.crash_signature(r)
+            ck.violation('no-report exit=%s uncaught=%s at=%s' % (r['exit'], exc, loc), 'audit of a GEX server whose %d-th group message is %s ended with status %s' % (k, kname, r['exit']), replay)
+            continue
+        # what the server handed out whole, per algorithm
+        handed, cur = {}, {}
+        faulted_conn = set()
+        for ev in r['events']:
+            if ev.get('ev') == 'send' and ev.get('type') == 20:
+                cur[ev['n']] = ev['kex'][0] if ev.get('kex') else ''
+            if ev.get('ev') == 'send' and ev.get('type') == 34:
+                handed.setdefault(cur.get(ev['n'], '?'), []).append((ev['n'], ev['answer']))
+        known, s1, s256 = audit.shown_gex_sizes(dict(r, argv=sc['argv']))
+        if not known:
+            ck.violation('gex-fault-report-unreadable', 'the report of the run cannot be read', replay)
+            continue
+        nth = 0
+        whole = {}
+        for alg in (GEX1, GEX256):          # (the probe order of the tool: sha1 first)
+            for n, ans in handed.get(alg, []):
+                if ans:
+                    nth += 1
+                    if nth != k:
+                        whole.setdefault(alg, set()).add(ans)
+        bad = False
+        for alg, shown in ((GEX1, s1), (GEX256, s256)):
+            if shown and shown not in whole.get(alg, set()):
+                ck.violation('gex-size-not-a-group-handed-out fault=%s' % kname, '%s: the report shows %d bits; the groups the server handed out whole for it are %r (its %d-th group message was %s)'
+                             % (alg, shown, sorted(whole.get(alg, set())), k, kname), replay)
+                bad = True
+        if bad:
+            continue
+        ck.nontrivial(('gex-fault', json.dumps(a, sort_keys=True), kname, k, view))
+        items.append((audit.srv_of(server_cfg(a), True, dh_tables, argv=sc['argv']), dict(r, argv=sc['argv'])))
+        imeta.append((a, kname, k, replay))
+    for (a, kname, k, replay), (ok, info) in zip(imeta, audit.validate(ck, items)):
+        if ok:
+            ck.cov['traces_validated_against_impl'] += 1
+        else:
+            ck.violation('gex-fault-trace-rejected fault=%s model_pc=%s' % (kname, (info or {}).get('model_pc')),
+                         'TraceAudit rejects the run (server %r, %d-th group message %s): %s' % (a, k, kname, {x: v for x, v in (info or {}).items() if x != 'events'}), dict(replay, info=info))
 
 
 def sequence_leg(ck):
